@@ -101,6 +101,7 @@ func (u *Unit) execCall(st *State, instr ssa.Instruction, common *ssa.CallCommon
 	if c == nil {
 		return u.havocCall(st, instr, name, callee, resTypes)
 	}
+	defer u.ghostAfterCall(st, instr, name)
 	if c.Extern {
 		u.usedExternal[name] = true
 	} else if c.Trusted {
@@ -735,5 +736,25 @@ func (u *Unit) assertsAtCall(st *State, instr ssa.Instruction, name string) {
 		}
 		u.oblige(st, "assert", instr.Pos(), g, a.Clause.Text, a.Clause.Tags)
 		st.assume(g)
+	}
+}
+
+// ghostAfterCall executes `ghost at after call of F: v = expr` updates in the state after the call.
+func (u *Unit) ghostAfterCall(st *State, instr ssa.Instruction, name string) {
+	if u.contract == nil {
+		return
+	}
+	for _, g := range u.contract.Ghosts {
+		if !strings.HasPrefix(g.At, "after call of ") {
+			continue
+		}
+		want := strings.TrimSpace(strings.TrimPrefix(g.At, "after call of "))
+		if shortName(name) != want {
+			continue
+		}
+		ctx := u.newCtx(st, u.entry)
+		u.bindLocals(ctx, st, instr.Block())
+		u.ghostUpdates(st, g.At, ctx)
+		return
 	}
 }
